@@ -1466,6 +1466,10 @@ func (f *formatter) ExprVariable(n *ast.ExprVariable) {
 
 func (f *formatter) ExprYield(n *ast.ExprYield) {
 	n.YieldTkn = f.newToken(token.T_YIELD, []byte("yield"))
+	if n.Val == nil {
+		return
+	}
+
 	f.addFreeFloating(token.T_WHITESPACE, []byte(" "))
 
 	if n.Key != nil {
